@@ -33,7 +33,8 @@ out.append("conditions, one table row, a particular history, one boundary value,
 out.append("imitate maintenance work (standard-library modernisation, a feature addition that leaks into the old entry points, a performance")
 out.append("refactoring, an over-correcting bug fix), wave 7 (`-w7-`) was clause-targeted and adversarial: the sub-agent was told what kind of")
 out.append("harness is being evaluated (reference readers, structural checks, boundary sweeps, models, fresh-process comparison, race workloads) and")
-out.append("asked to split the property into clauses and break the two clauses such a harness is least likely to verify. I re-confirmed every one")
+out.append("asked to split the property into clauses and break the two clauses such a harness is least likely to verify; wave 8 (`-w8-`) repeated that")
+out.append("with a description of everything the harness had learnt by then. I re-confirmed every one")
 out.append("(build, library suite green, demonstration fails with / passes without the patch — column *ok*) and ran the quick tier of the")
 out.append("targeted property against the patched copy (`tools/seeded.py`, recorded in each `meta.json`). † = the check missed it at first and")
 out.append("was strengthened (what changed is in `meta.json` → `strengthening_needed` and summarised in 12.3).\n")
